@@ -349,6 +349,67 @@ fn build_incoming(ev: &Ev) -> Vec<u8> {
     buf
 }
 
+/// OVERLAPPING routes that differ only in the NAMES of their captures (`/dev/:name/status` and `/dev/:id/status`, the second
+/// registered before run() or by a successful handler): which of the two handlers gets a matching call is not specified,
+/// but whichever is called finds the segment under ITS OWN capture name. Evaluated directly (the model's histories keep
+/// every lookup unambiguous).
+fn same_shape_family(out: &mut Out, rng: &mut Prng) {
+    let shapes: [(&str, &str, &str); 3] = [("/dev/:name/status", "/dev/:id/status", "/dev/sda/status"), ("/:a/:b", "/:b/:a", "/p/q"), ("/x/:k/*", "/x/:key/*", "/x/v/rest/more")];
+    for (first, second, object) in shapes {
+        for via_handler in [false, true] {
+            let (conn, mut server) = peer::connect_pair(false);
+            let shared: Log = Rc::new(RefCell::new(Vec::new()));
+            let serial0 = 10 + rng.below(50) as u32;
+            let mut script: HashMap<u32, Script> = HashMap::new();
+            if via_handler {
+                // the first message goes to a helper route whose (successful) handler registers the second pattern
+                script.insert(serial0, Script { beh: 'n', bad_reply: false, adds: vec![(second.to_string(), 2)] });
+            }
+            let ctx = Ctx { log: shared.clone(), script };
+            let mut dc = DispatchConn::new(conn, ctx, handler(None));
+            dc.add_handler(first, handler(Some(1)));
+            dc.add_handler("/helper", handler(Some(9)));
+            if !via_handler {
+                dc.add_handler(second, handler(Some(2)));
+            }
+            let mk = |serial: u32, object: &str| Ev { serial, sender: Some(":1.5".into()), object: Some(object.to_string()), kind: 0, script: Script { beh: 'n', bad_reply: false, adds: vec![] } };
+            let evs = vec![mk(serial0, "/helper"), mk(serial0 + 1, object), mk(serial0 + 2, object)];
+            for e in &evs {
+                server.write_all(&build_incoming(e)).unwrap();
+            }
+            server.shutdown(std::net::Shutdown::Write).unwrap();
+            let _ = guard(|| {
+                for _ in 0..evs.len() + 2 {
+                    match dc.run() {
+                        Err((None, _)) | Ok(()) => break,
+                        _ => {}
+                    }
+                }
+            });
+            let log: Vec<(String, u32, String)> = shared.borrow().clone();
+            let req = format!("c19.sameshape {} {} {} via_handler={}", first, second, object, via_handler);
+            for (who, serial, caps) in log.iter().filter(|l| l.1 != serial0) {
+                let pat = match who.as_str() {
+                    "1" => first,
+                    "2" => second,
+                    other => {
+                        out.violation(&req, &format!("message {} for {} went to handler {:?}, not to one of the two matching routes", serial, object, other));
+                        continue;
+                    }
+                };
+                let want = show_caps(oracle(pat, object).unwrap().iter());
+                if *caps != want {
+                    out.violation(&req, &format!("message {}: the handler registered for {} was called with captures {} instead of {}", serial, pat, caps, want));
+                }
+            }
+            if log.iter().filter(|l| l.1 != serial0).count() != 2 {
+                out.violation(&req, &format!("two calls for {} were sent, invocations: {:?}", object, log));
+            }
+            out.hit("same_shape_routes");
+        }
+    }
+}
+
 fn scenario(out: &mut Out, rng: &mut Prng, max_events: u64, peer_gone: bool) {
     // --- generate: the engine keeps its own idea of the route table (pattern string -> handler id) to keep
     // every lookup unambiguous and to evaluate the property directly
@@ -609,6 +670,7 @@ pub fn run(cfg: &Cfg) {
     for i in 0..n {
         scenario(&mut out, &mut rng, if cfg.thorough { 20 } else { 8 }, i % 10 == 9);
     }
+    same_shape_family(&mut out, &mut rng);
     out.finish(
         "(1) every pattern x every path over '/'-joined segment lists from {empty, a, b, :x, *} with up to 3 (quick) / 4 (thorough) segments, plus one more when the first is empty, through PathMatcher::insert/get_match, compared with an oracle written from the property text; (2) random tables of 2-4 such patterns (duplicates included) x paths, the handler returned by get_match is invoked and identified, judged legal/illegal by the model and required to be the unique match where there is one; (3) random histories (initial routes, up to 8 / 20 calls, signals and object-less messages with random senders; handlers return Ok(None) / Ok(Some(custom reply)) / an unsendable reply / Err and add or replace routes) run by DispatchConn::run on a real connection to a scripted peer (every tenth scenario the peer is already gone), run() is called again after every error return; invocation log, replies decoded at the peer and error returns compared; distinct by request line; non-trivial = all match/table cases, histories with at least 2 messages",
         false,
